@@ -54,21 +54,21 @@ PROPS = {
         explanation="Proved for all strings (Verus): from_str == parse_post -- designated separators taken right to left (last '#', last '?', first '/', last '@', last '/'), each component routed to its decoder; decode_subpath / decode_namespace / decode_qualifiers equal their fold specifications; type and key legality and lower-casing; checksum text. BOUNDED: that every permitted spelling of a tuple is mapped to the tuple by these specification functions -- exhaustive tuples x spelling freedoms (S) and every T_N string against an independent reference parser, on the real code."),
     'C03': dict(level='other', groups=['fmt', 'qual', 'purl', 'pkgtype'], kani=ESC, bounded=['format:C03', 'tokens:C03', 'scale:C03', 'spell:C03', 'qualmap', 'preds', 'shapes'] + A,
         explanation='Proved (Verus): on Ok, the output of Display::fmt is exactly canon_spec(type, parts) = pkg: type / [namespace /] name [@ version] [? k=v & ...] [# subpath] with absent parts omitted, pairs in storage order; storage order is strictly ascending after every verified mutator; accessors map empty to None; the documented panic is the precondition. Complete (Kani): every byte of every escape set, upper-case hex. BOUNDED: retain keeps the order; cross-check against an independent renderer on every Unicode scalar value in every component position, all ASCII pairs, T_N, S, and the map exploration.'),
-    'C04': dict(level='other', groups=['builder', 'parse', 'lib_shape', 'qual', 'pkgtype', 'cksum', 'purl'], kani=['type_char', 'key_char'], bounded=['tokens:C04', 'scale:C04', 'builder', 'protocol', 'preds', 'checksum'] + A,
+    'C04': dict(level='other', groups=['builder', 'parse', 'lib_shape', 'qual', 'pkgtype', 'cksum', 'purl'], kani=['type_char', 'key_char'], bounded=['tokens:C04', 'scale:C04', 'builder', 'protocol', 'preds', 'checksum', 'qualmap'] + A,
         explanation='Proved (Verus) for every PurlShape implementation: build() returns a value with non-empty name, the qualifier invariant (valid lower-case keys, strictly ascending, each retrievable: search/get contracts), non-empty values including the checksum text, after exactly one hook call (build_post); from_str ends in build() (parse_post); built-in shapes validate and ASCII-lower-case the type; the checksum text is the strictly sorted listing with lower-case hex (canon_text). Assumed at two call sites inside build(): Qualifiers::retain(non-empty) (FnMut is outside Verus) and try_get_typed::<Checksum>() -- both BOUNDED by the map / checksum / protocol suites.'),
     'C05': dict(level='other', groups=['parse', 'parse_seg', 'lib_shape', 'qual', 'pkgtype', 'builder', 'cksum'], kani=['type_char', 'key_char'], bounded=['faults', 'tokens:C05', 'scale:C05', 'lower', 'checksum'] + A,
         explanation="Proved (Verus): the error clauses of parse_post (scheme, missing type, missing name, invalid type before the conversion), dq_fold (item without '=', invalid key, key already present => InvalidQualifier; undecodable value => InvalidEscape), sub_fold / ns_fold (hidden '/', encoded dot segments, bad UTF-8 => InvalidEscape), ck_parse / canon text (malformed checksum => InvalidQualifier), build_post (empty name), pkg_finish_rel (maven without namespace), with the conversion of ParseError through From. BOUNDED: that a string with exactly one listed defect reaches exactly that clause -- every fault kind x position x spelling over S, never-accepted over T_N; PackageType::from_str (phf)."),
     'C06': dict(level='other', groups=['lib_lower', 'lib_shape', 'pkgtype', 'qual', 'builder', 'purl', 'parse_seg', 'cksum', 'fmt', 'parse'], kani=ESC + ['type_char', 'key_char', 'empty_is_invalid', 'package_type_names'],
-        bounded=['nopanic', 'tokens:C06', 'scale:C06', 'checksum', 'qualmap', 'protocol', 'preds', 'builder'],
+        bounded=['nopanic', 'tokens:C06', 'scale:C06', 'checksum', 'qualmap', 'protocol', 'preds', 'builder', 'names', 'lower', 'pkgrules', 'comb', 'eq'],
         explanation='Deductive: every verified unit carries Verus obligations for arithmetic overflow (the checksum capacity computation included), unwrap, indexing, the three documented panics as preconditions, and termination of its loops; Kani adds its automatic checks on the harnessed code. Functions outside Verus (retain, try_from_iter, Index, IterMut, Entry combinators, Checksum accessors, serde, PackageType::from_str) are covered only BOUNDED: catch_unwind around every call of every domain, overflow checks on, random strings to 1 MiB.'),
     'C07': dict(level='proof', groups=['parse_seg', 'parse'], kani=[], bounded=['segments', 'tokens:C07', 'scale:C07', 'faults'],
         explanation="Proved (Verus, all strings, every T): from_str == parse_post routes the text after the last '#' to decode_subpath and the text before the last '/' of the path to decode_namespace; these equal sub_fold / ns_fold of the pieces between raw '/'; lemma_c07_of_phases: for every string the two phases accept, the reported namespace / subpath is the '/'-join of the decoded non-skipped pieces and splitting it at '/' gives exactly those segments back -- none empty, none containing '/', subpath segments not '.' or '..' -- or it is absent; the hooks of the built-in type parameters and the generic tail of build() leave namespace and subpath untouched (frames). Bounded cross-checks on the compiled code accompany the proof.",
         trusted=['decode(): a single call into the percent-encoding crate; its contract dec (percent-decode + strict UTF-8) and "a non-empty piece decodes to a non-empty string" are assumed (A: bounded replay)', 'std trim_matches / split / rsplit_once / split_once contracts (A: bounded replay)', 'a user-written PurlShape may overwrite namespace / subpath in its hook: the statement is read for the built-in type parameters']),
     'C08': dict(level='other', groups=['lib_lower', 'pkgtype', 'builder', 'parse'], kani=['package_type_names'], bounded=['pkgrules', 'lower', 'tokens:C08', 'scale:C08'] + A,
         explanation='Proved for all strings and all seven variants (Verus): nuget name = Unicode lower-casing (lower_seq), pypi name = pypi_norm written from the statement, maven refused iff the namespace has no significant segment, every other field untouched (frame), parser and builder both end in build() which applies the hook once. Unicode tables validated exhaustively (A). BOUNDED: unknown-type refusal (phf / unicase lookup), cross-checks on every scalar value.'),
-    'C09': dict(level='other', groups=['builder', 'qual', 'pkgtype', 'purl', 'fmt', 'inverse'], kani=ESC, bounded=['builder', 'format:C09', 'preds', 'shapes'] + A,
+    'C09': dict(level='other', groups=['builder', 'qual', 'pkgtype', 'purl', 'fmt', 'inverse'], kani=ESC, bounded=['builder', 'format:C09', 'preds', 'shapes', 'pkgrules', 'lower'] + A,
         explanation='Proved (Verus): every setter sets its field and leaves every other field unchanged (frames => override and commutation), with_qualifier accepts exactly valid keys with the whole-content postcondition of insert, build() succeeds / fails as stated (build_post), Display == canon_spec. ALSO proved (group inverse): parsing canon_spec of normalised parts returns those parts (lemma_parse_canon). BOUNDED: the same for parts that are not normalised (insignificant namespace / subpath segments set through the builder) and end to end on the compiled code -- all call sequences of length <= 2 / 3 over a value universe, and every scalar value in every field.'),
-    'C10': dict(level='other', groups=['builder', 'purl', 'lib_lower', 'pkgtype', 'cksum'], kani=[], bounded=['tokens:C10', 'scale:C10', 'spell:C10', 'builder'] + A,
+    'C10': dict(level='other', groups=['builder', 'purl', 'lib_lower', 'pkgtype', 'cksum'], kani=[], bounded=['tokens:C10', 'scale:C10', 'spell:C10', 'builder', 'pkgrules'] + A,
         explanation='Proved (Verus): into_builder moves type and parts unchanged, build() = hook + generic clean-up (build_post), name rules are the specification functions lower_seq / pypi_norm, checksum text = canon_text. BOUNDED: idempotence of the whole pipeline on produced values -- every accepted T_N / S string and every built value is re-built and compared.'),
     'C11': dict(level='other', groups=['qual'], kani=['key_char'], bounded=['qualmap', 'preds'] + A,
         explanation='Proved (Verus) for all strings and all contents: key validity and lower-casing, comparator total (never None), search, get, contains_key, insert, remove, clear, '
@@ -142,6 +142,60 @@ def unit_carries(unit_id, pid, group):
             ps = u.get('properties')
             return (not ps) or pid in ps
     return True
+
+
+# ---- which bounded-oracle violations are violations of WHICH property ----
+# A suite may evaluate oracles written for other properties (the qualifier-map suite speaks C11, the package-rule suite C08, ...).
+# A check reports a bounded violation only when it is a violation of ITS property: the oracle is the property's own
+# (`<pid>.…`), or a unit contract / assumption the property depends on (by the unit tags), or listed here because the
+# oracle's failure implies the property's statement fails (reason in the comment). Anything else is printed as a NOTE.
+IMPLIES = {
+    # ascending key order of the string form / of every value handed out rests on the collection's invariant
+    'C03': {('qualmap', 'C11.sorted'), ('qualmap', 'C11.dup')},
+    'C04': {('qualmap', 'C11.sorted'), ('qualmap', 'C11.dup'), ('qualmap', 'C11.get')},      # + "each retrievable by its key"
+    # "the type's name rule applied", "its own rule is satisfied", build succeeds, other fields as set -- through the builder
+    'C09': {('pkgrules', 'C08.name'), ('pkgrules', 'C08.builder'), ('pkgrules', 'C08.maven'), ('pkgrules', 'C08.frame')},
+    # "whatever the hook writes is what the PURL reports and prints ... empty-valued qualifiers are removed, a checksum is canonicalised"
+    'C14': {('protocol', 'C04.valid'), ('protocol', 'C03.format')},
+    # a PURL built with a checksum "carries that one canonical text": its validity is part of the statement
+    'C12': {('checksum', 'C04.valid')},
+    # equal values with different strings / hashes found while re-building
+    'C10': {('builder', 'C19.eq')},
+}
+
+
+def b_relevant(pid, suite, unit):
+    unit = unit or ''
+    base = (suite or '').split(':')[0]
+    if unit.startswith(pid + '.'):
+        return True
+    if unit.startswith('C06.'):
+        return True          # a panic / overflow in an operation the property speaks about: the operation did not yield what the property says
+    if unit.startswith('A.'):
+        return True          # an assumed dependency contract the proofs of this property use does not hold
+    if unit.startswith('U-'):
+        return any(unit_carries_strict(unit, pid, g) for g in ALL_GROUPS)
+    head = '.'.join(unit.split('.')[:2])
+    return (base, head) in IMPLIES.get(pid, set())
+
+
+def unit_carries_strict(unit_id, pid, group):
+    """the unit (or a unit whose id starts with it) is verified or assumed in `group` and tagged with `pid`"""
+    g = _GROUP_CACHE.get(group)
+    if g is None:
+        try:
+            g = extract.load_group(group)
+        except Exception:
+            return False
+        _GROUP_CACHE[group] = g
+    for u in g['units']:
+        parts = unit_id.split('.')
+        if u['id'] == unit_id or (len(parts) >= 2 and u['id'].startswith(parts[0] + '.') and u['id'].endswith('.' + parts[-1])):
+            if u.get('mode') == 'contract_only':
+                continue
+            if pid in (u.get('properties') or []):
+                return True
+    return False
 
 
 def evidence(pid, P, tier, seed, vres, kres, bres, violations, undecided, wall):
